@@ -167,6 +167,7 @@ impl GenerateNewtype for StringNewtype {
 
     fn gen_validation_error_type(
         type_name: &TypeName,
+        _inner_type: &Self::InnerType,
         error_type_path: &ErrorTypePath,
         validators: &[Self::Validator],
     ) -> TokenStream {
